@@ -61,6 +61,13 @@ def tier_ok(ob, tier):
     return tier == 'thorough' or ob.get('tier', 'quick') == 'quick'
 
 
+def _finding_text(line, pid):
+    """text of a `finding:` line without the leading keyword and without its own property=<id> field"""
+    t = line[len('finding:'):].strip()
+    pre = 'property=%s' % pid
+    return t[len(pre):].strip() if t.startswith(pre) else t
+
+
 def run_property(pid, tier, seed):
     from . import verus as verus_mod
     t0 = time.time()
@@ -156,7 +163,7 @@ def run_property(pid, tier, seed):
             continue
         from . import replay as replay_mod
         tn = time.time()
-        confirmed, text = replay_mod.run_replay({'replay': ob['recipe'], 'inputs': None})
+        confirmed, text = replay_mod.run_replay({'replay': ob['recipe'], 'inputs': None, 'timeout': ob.get('timeout')})
         solver_time[ob['id']] = round(time.time() - tn, 2)
         cmds.append('replay_runner ' + ' '.join(ob['recipe']))
         if confirmed is True:
@@ -246,7 +253,7 @@ def finish(pid, tier, seed, sel, results, cmds, solver_time, assumptions, units,
             if kf:
                 # a listed finding is only honoured when the unit says the failure is the listed one
                 for f in kf:
-                    known_lines.append('KNOWN-FINDING: property=%s %s' % (pid, f['line'][len('finding:'):].strip()))
+                    known_lines.append('KNOWN-FINDING: property=%s %s' % (pid, _finding_text(f['line'], pid)))
                 continue
             violations.append((u, ob, r))
         elif r['status'] == 'undecided':
@@ -266,7 +273,7 @@ def finish(pid, tier, seed, sel, results, cmds, solver_time, assumptions, units,
             from . import replay as replay_mod
             confirmed, text = replay_mod.run_replay({'replay': kf['recipe'], 'inputs': None})
             if confirmed:
-                known_lines.append('KNOWN-FINDING: property=%s %s' % (pid, listed[0]['line'][len('finding:'):].strip()))
+                known_lines.append('KNOWN-FINDING: property=%s %s' % (pid, _finding_text(listed[0]['line'], pid)))
     os.makedirs(os.path.join(VERIF, 'replay'), exist_ok=True)
     out_lines = []
     downgraded = []
